@@ -80,7 +80,12 @@ def rule_ext(run):
     intarith.run_extension_rule(run, "C09.ext")
 
 
-RULES = [rule_rows, rule_siblings, rule_intarith, rule_ext, rule_widths, rule_literals]
+def rule_castmatrix(run):
+    from . import c05
+    c05.rule_back(run)
+
+
+RULES = [rule_rows, rule_siblings, rule_intarith, rule_ext, rule_widths, rule_literals, rule_castmatrix]
 LEVEL = "other"
 EXPLANATION = (
     "Structural agreement between the compile-time (folding) path and the run-time path of primitive operators: "
